@@ -19,6 +19,7 @@ import os
 import shutil
 import sys
 import tempfile
+import time
 
 import numpy as np
 
@@ -394,8 +395,8 @@ def run_side(prep, case, tmp, res, gen=None, n_ops=0, check=True, lean=False):
         if op[0] in ("m", "u", "r"):
             info["ok_structural"] += 1
         entries.append(("cli" if op[0] == "cli" else "stage", show_stage(cur)))
-        if check and not failed:
-            failed, sizes = check_stage(ref, cur, rows, sizes, case, "op %d: %s" % (t - 1, op_tok(op)), res)
+        if check and not failed:               # the recorded case holds the history up to this step
+            failed, sizes = check_stage(ref, cur, rows, sizes, dict(case, ops=list(done)), "op %d: %s" % (t - 1, op_tok(op)), res)
     if gen is not None:
         case["ops"] = done
     info["failed"] = failed
@@ -553,7 +554,12 @@ def run(ctx, res):
                 res.nontrivial.add(common.short_hash([case["raw"], case["split"], case["ops"]]))
             res.sample({"kind": "witness", "side": case["side"], "hold-out-only": {"samples": hs, "treatments": [list(x) for x in ht]},
                         "line": line[:260], "final": entries[-1][1][:200]}, limit=2)
+        t_start = time.time()
+        budget = 75 if max_ops == 8 else 450            # seconds; a loaded machine must not push the tier over its limit
         for t in range(n_cases):
+            if time.time() - t_start > budget:
+                res.notes.append("time budget of %d s reached after %d of %d prepared screens" % (budget, t, n_cases))
+                break
             raw, prep_kind = gen_prepared(rng, n_max)
             base = {"raw": raw, "obs_bits": obs_bits_list(raw), "premask": rng.random() < 0.4,
                     "theta_seed": rng.randrange(2 ** 31), "dim": rng.choice([2, 3]), "kind": prep_kind}
@@ -587,7 +593,12 @@ def run(ctx, res):
                 res.count("hold-out-only.any")
             for side in ("train", "test"):
                 case = dict(base, side=side, ops=[])
-                k = rng.randint(1, max_ops if side == "train" or not lean else max_ops // 2)
+                if not lean:
+                    k = rng.randint(1, max_ops)
+                elif side == "train":                  # thorough: half the training histories up to 20 steps, the rest up to 8
+                    k = rng.randint(1, max_ops if rng.random() < 0.5 else 8)
+                else:
+                    k = rng.randint(1, 8)
                 line, entries, info = run_side(prep, case, tmp, res, gen=rng, n_ops=k, lean=lean)
                 res.evaluations += 1
                 res.count("stages", info["steps"] + 1)
